@@ -58,17 +58,20 @@ def strip_lean_comments(src):
     return "".join(out)
 
 
-def obligations(pid):
-    """theorem names declared in Props/<pid>.lean (machine-extracted)"""
-    path = os.path.join(LEAN, "CanVerif", "Props", pid + ".lean")
-    if not os.path.exists(path):
-        return []
-    src = strip_lean_comments(open(path).read())
-    names = re.findall(r"^\s*theorem\s+([A-Za-z_][A-Za-z0-9_'.]*)", src, re.M)
-    return ["CanVerif.%s.%s" % (pid, n) for n in names]
+def obligations(pid, extra=()):
+    """theorem names declared in Props/<pid>.lean and in the shared files named by the property module (machine-extracted)"""
+    out = []
+    for mod in (pid,) + tuple(extra):
+        path = os.path.join(LEAN, "CanVerif", "Props", mod + ".lean")
+        if not os.path.exists(path):
+            continue
+        src = strip_lean_comments(open(path).read())
+        names = re.findall(r"^\s*theorem\s+([A-Za-z_][A-Za-z0-9_'.]*)", src, re.M)
+        out += ["CanVerif.%s.%s" % (mod, n) for n in names]
+    return out
 
 
-def proof_audit(pid):
+def proof_audit(pid, extra=()):
     """returns dict(ok, obligations, discharged, axioms, problems)"""
     res = {"ok": False, "obligations": [], "discharged": [], "axioms": {}, "problems": []}
     try:
@@ -91,12 +94,12 @@ def proof_audit(pid):
                 for ln, line in enumerate(src.split("\n"), 1):
                     if BAD_TOKENS.search(line):
                         res["problems"].append("forbidden token in %s:%d: %s" % (f, ln, line.strip()[:80]))
-    obs = obligations(pid)
+    obs = obligations(pid, extra)
     res["obligations"] = obs
     if not obs:
         res["problems"].append("no theorems found in Props/%s.lean" % pid)
         return res
-    audit = "import CanVerif.Props.%s\n" % pid + "".join("#print axioms %s\n" % o for o in obs)
+    audit = "".join("import CanVerif.Props.%s\n" % mod for mod in (pid,) + tuple(extra)) + "".join("#print axioms %s\n" % o for o in obs)
     audit_path = os.path.join(LEAN, ".lake", "Audit_%s_%d.lean" % (pid, os.getpid()))
     with open(audit_path, "w") as f:
         f.write(audit)
@@ -299,7 +302,7 @@ def run_check(prop, tier, seed):
     known = load_known(pid)
     open_ids = {e["id"]: e for e in known if e.get("status") == "open"}
 
-    audit = proof_audit(pid)
+    audit = proof_audit(pid, getattr(prop, "EXTRA_PROPS", ()))
 
     # corpus first
     corpus_dir = os.path.join(ROOT, "corpus", pid)
@@ -434,7 +437,7 @@ def run_replay(prop, path):
     d = json.load(open(path))
     if "case" not in d:
         print("replay file names a broken proof obligation, not a case: %s" % d.get("problems"))
-        audit = proof_audit(prop.PID)
+        audit = proof_audit(prop.PID, getattr(prop, "EXTRA_PROPS", ()))
         return 0 if audit["ok"] else 1
     r = evaluate(prop, [d["case"]])[0]
     print(json.dumps({"case": r["case"], "impl": r["impl"], "model": r["model"], "spec": r["spec"],
